@@ -836,8 +836,8 @@ def _text_cfg(name, with_data):
     }
 
 
-def extract(read, fail, lean_str, lean_list):
-    out = ["-- Rust -> Lean translations of whitelisted function bodies (tools/consts.d/w4_translate.py)"]
+def extract_headers(read, fail):
+    out = ["-- Rust -> Lean translation of whitelisted function bodies: the five header actions (tools/consts.d/w4_translate.py)"]
 
     # ---- (1) the five header actions
     hdr = r"fn filter\(&self, (mut )?headers: Vec<Header>, (mut )?unit_trace: Option<&mut UnitTrace>\) -> Vec<Header> \{"
@@ -859,6 +859,11 @@ def extract(read, fail, lean_str, lean_list):
     if not re.search(r"pub struct Header \{\s*pub name: String,\s*pub value: String,\s*\}", hsrc):
         fail("src/http/header.rs: `Header` is no longer { name: String, value: String }")
 
+    return out
+
+
+def extract_text(read, fail):
+    out = ["-- Rust -> Lean translation: the text body filter (tools/consts.d/w4_translate_text.py, translator in w4_translate.py)"]
     # ---- (2) the text body filter
     path = "src/filter/text_filter_body.rs"
     src = read(path)
@@ -891,6 +896,11 @@ def extract(read, fail, lean_str, lean_list):
     out += _emit(cfg, parser, stmts, tail, fail,
                  f"`TextFilterBodyAction::end`: (new `executed`, returned bytes); translated from {path}.")
 
+    return out
+
+
+def extract_scan(read, fail):
+    out = ["-- Rust -> Lean translation: the prefix scanner (tools/consts.d/w4_translate_scan.py, translator in w4_translate.py)"]
     # ---- (3) the prefix scanner
     path = "src/regex_radix_tree/prefix.rs"
     src = read(path)
@@ -927,3 +937,7 @@ def extract(read, fail, lean_str, lean_list):
     out += _emit(cfg, parser, stmts, tail, fail,
                  f"`common_prefix_char_size` (strings as `List Char`; `group_level` is an `i32`: `Int`); translated from {path}.")
     return out
+
+
+def extract(read, fail, lean_str, lean_list):
+    return extract_headers(read, fail)
